@@ -26,6 +26,7 @@ func CfgFromEnv(env *drive.Env) Cfg {
 	c.SubsidyThreshold = uint64(env.OptInt("sub", int(c.SubsidyThreshold)))
 	c.MaxStake = uint64(env.OptInt("maxstake", int(c.MaxStake)))
 	c.WithdrawDelay = uint64(env.OptInt("wdelay", int(c.WithdrawDelay)))
+	c.Pool = int64(env.OptInt("pool", int(c.Pool)))
 	return c
 }
 
